@@ -400,7 +400,17 @@ impl Alloc {
                 out.push(self.free.remove(i));
             }
         } else {
-            let start = if self.free.len() > n { pool.below((self.free.len() - n) as u32) as usize } else { 0 };
+            // one chain in five sits at the very end of the free space (the highest cluster numbers of the volume: beyond
+            // 65535 on FAT32, where the first cluster needs both words of the entry)
+            let start = if self.free.len() > n {
+                if pool.chance(20) {
+                    self.free.len() - n
+                } else {
+                    pool.below((self.free.len() - n) as u32) as usize
+                }
+            } else {
+                0
+            };
             out = self.free.drain(start..start + n).collect();
             if fr.backwards && pool.chance(40) {
                 out.reverse();
